@@ -27,6 +27,11 @@ def prelude(out, need_harness=True, race=False):
         if not hok:
             out.infra.append("harness does not build against /repo's working tree:\n" + hlog[-3000:])
             return None
+        try:
+            out.drift = vlib.anchor_drift(out.pid, binp)
+            out.cov["anchor_drift"] = out.drift
+        except Exception as e:   # never decides anything
+            out.cov["anchor_drift"] = dict(available=False, error=str(e))
         return binp
     return None
 
